@@ -329,9 +329,86 @@ func runC27(c *eng.Ctx) {
 					}
 				}
 				okM = hasTok && hasStart && len(vals) == 2
+				// precedence: with a continuation token the marker is the token; start-after is used only on the edge
+				// where the token is empty (a client re-sending start-after with each page must still advance)
+				tokEmpty := func(cond ssa.Value) (bool, bool) {
+					b, ok := cond.(*ssa.BinOp)
+					if !ok || (b.Op != token.EQL && b.Op != token.NEQ) || b.X != tok {
+						return false, false
+					}
+					sv, isS := eng.ConstString(b.Y)
+					return isS && sv == "", b.Op == token.EQL
+				}
+				// values of the marker along paths that avoid the token-is-empty edges
+				if len(eng.PassEdges(v2, tokEmpty)) == 0 {
+					okM = false
+				} else {
+					for _, v := range resolveAvoiding(v2, m, lfc[0], eng.PassEdges(v2, tokEmpty)) {
+						if v != tok {
+							okM = false
+						}
+					}
+					for _, v := range resolveAvoiding(v2, m, lfc[0], eng.FailEdges(v2, tokEmpty)) {
+						if v != start {
+							okM = false
+						}
+					}
+				}
 			}
 		}
 		c.Ob("PROV-page", eng.FuncName(v2)+" resumes-from-token-or-start-after", okM, v2.Pos(), "V2 resumes from the continuation token, or from start-after when there is none")
 	}
 	c.Expect("PROV-page", 5)
+}
+
+// resolveAvoiding: the values v can have at instruction `at` along paths from the function entry that do not use
+// the cut edges (phis are resolved through the predecessors reachable under the cut).
+func resolveAvoiding(fn *ssa.Function, v ssa.Value, at ssa.Instruction, cut map[eng.Edge]bool) []ssa.Value {
+	reach := map[*ssa.BasicBlock]bool{fn.Blocks[0]: true}
+	work := []*ssa.BasicBlock{fn.Blocks[0]}
+	for len(work) > 0 {
+		b := work[0]
+		work = work[1:]
+		for i, sb := range b.Succs {
+			if cut[eng.Edge{B: b, I: i}] || reach[sb] {
+				continue
+			}
+			reach[sb] = true
+			work = append(work, sb)
+		}
+	}
+	var out []ssa.Value
+	seen := map[ssa.Value]bool{}
+	var rec func(x ssa.Value)
+	rec = func(x ssa.Value) {
+		if seen[x] {
+			return
+		}
+		seen[x] = true
+		phi, ok := x.(*ssa.Phi)
+		if !ok {
+			out = append(out, x)
+			return
+		}
+		for i, e := range phi.Edges {
+			p := phi.Block().Preds[i]
+			if !reach[p] {
+				continue
+			}
+			edgeCut := false
+			for si, sb := range p.Succs {
+				if sb == phi.Block() && cut[eng.Edge{B: p, I: si}] && !(len(p.Succs) == 2 && p.Succs[0] == p.Succs[1]) {
+					edgeCut = true
+				}
+			}
+			if edgeCut {
+				continue
+			}
+			rec(e)
+		}
+	}
+	if reach[at.Block()] {
+		rec(v)
+	}
+	return out
 }
